@@ -16,7 +16,8 @@ def generate(rng, tier):
             rate_boundary_scripts(rng, md) + slow_rate_boundary_scripts(rng, md) +
             [unset_minimum_history(rng) for _ in range(150 * k)] + [random_seq_history(rng, us=True) for _ in range(300 * k)] +
             [random_seq_history(rng, us=2) for _ in range(200 * k)] + farey_neighbour_scripts(rng, 90 * k, 12 if tier == 'quick' else 40) +
-            [long_run_then_failures(rng, 1 if tier == 'quick' else rng.choice([1, 1, 2])) for _ in range(1 if tier == 'quick' else 6)])
+            [long_run_then_failures(rng, 1 if tier == 'quick' else rng.choice([1, 1, 2])) for _ in range(1 if tier == 'quick' else 6)] +
+            [slow_listener(rng) for _ in range(120 * k)])
 
 
 def _walk(s, t):
